@@ -864,3 +864,17 @@ K('C13', 'checkpoint-used-whenever-it-exists', [(INF, _CK0, _CK0 + "        self
     (INF, _WARM, "        if self.checkpoint is not None:\n            model.potentials.combine(self.checkpoint.potentials)\n        self.model = model\n        if self.warm_start:\n            self.checkpoint = model\n")], 'A2-per-call-state')
 T('C13', 'checkpoint-used-only-under-the-flag', [(INF, _CK0, _CK0 + "        self.checkpoint = None\n"),
     (INF, _WARM, "        if self.warm_start and self.checkpoint is not None:\n            model.potentials.combine(self.checkpoint.potentials)\n        self.model = model\n        self.checkpoint = model\n")])
+
+# ------------------------------------------------------------------ round 15: the rules added for its pairs
+_BULK = "            for attr in results:\n                if set(proj) <= set(attr):\n"
+_HIT = ("            key = self.domain.canonical(proj)\n            if len(key) == len(proj) and key in results:\n"
+        "                answers[proj] = results[key].transpose(%s)\n                continue\n")
+K('C02', 'exact-hit-of-the-bulk-query-in-domain-order', [(GM, _BULK, _HIT % 'key' + _BULK)], 'requested-order')
+T('C02', 'exact-hit-of-the-bulk-query-as-requested', [(GM, _BULK, _HIT % 'proj' + _BULK)])
+T('C11', 'leftover-records-added-unbuffered', [(GM, "                integ[idx] += 1\n", "                np.add.at(integ, idx, 1)\n")])
+_LOG = "        np.log(self.values, out=out.values)\n"
+K('C14', 'in-place-logarithm-of-the-shifted-values', [(F, _LOG, "        np.log(self.values + 1e-100, out=out.values)\n")], 'log-form')
+T('C14', 'in-place-logarithm-through-a-local', [(F, _LOG, "        values = self.values\n        np.log(values, out=out.values)\n")])
+K('C11', 'leftover-records-drawn-with-replacement-unbuffered', [(GM, "                idx = np.random.choice(counts.size, extra, False, frac / frac.sum())\n                integ[idx] += 1\n",
+                                                                   "                idx = np.random.choice(counts.size, extra, True, frac / frac.sum())\n                np.add.at(integ, idx, 1)\n")], 'count-conservation')
+
